@@ -587,7 +587,7 @@ pub fn property() -> Property {
     Property {
         id: "C01",
         level: "exploration",
-        rule: "generated: 1-5 rules of the typed core (condition trees to depth 6 over && || ! and parentheses; atoms field/arithmetic op literal/field/arithmetic with == != < <= > >= contains startsWith endsWith in; 1-3 assignments of literal/field/arithmetic/string concatenation) printed to GRL and loaded through GRLParser (part `parser`) or built as the identical Rule values directly (part `api`, 10x the cases; the AST-to-Rule mapping is the one the parser part validates rule by rule), x fact stores (2-3 nested objects, depth 1-3, flat keys, ints incl. i64 extremes, k/4 floats, strings over {a,b,c}, bools, arrays, nulls, absent fields), max_cycles=1; plus an exhaustive sweep of every operator x every ordered pair of 18 representative values (incl. absent) x {literal, field-ref} x {plain, negated}. Oracle: the tri-state reference evaluator REF runs the pass itself; compared: firing sequence, the store after every firing and at the end (reads over all candidate paths + targets), rules_fired. Cases REF calls undefined (documentation silent/contradictory) are cut at that rule and counted per reason; cases where the parsed rule differs from the AST are counted as parser-deviation and left to C04. Non-trivial: judged to the end and (some rule fired and some did not, or an atom with an absent field / field reference / arithmetic, or >= 3 atoms); distinct by hash of (program text, store).",
+        rule: "generated: 1-5 rules of the typed core (condition trees to depth 6 over && || ! and parentheses; atoms field/arithmetic op literal/field/arithmetic with == != < <= > >= contains startsWith endsWith in; 1-3 assignments of literal/field/arithmetic/string concatenation) printed to GRL and loaded through GRLParser (part `parser`) or built as the identical Rule values directly (part `api`, 10x the cases; the AST-to-Rule mapping is the one the parser part validates rule by rule), x fact stores (2-3 nested objects, depth 1-3, flat keys, ints incl. i64 extremes, k/4 floats, strings over {a,b,c}, bools, arrays, nulls, absent fields), max_cycles=1; plus an exhaustive sweep of every operator x every ordered pair of 18 representative values (incl. absent) x {literal, field-ref} x {plain, negated}. Oracle: the tri-state reference evaluator REF runs the pass itself; compared: firing sequence, the store after every firing and at the end (reads over all candidate paths + targets), rules_fired. Cases REF calls undefined (documentation silent/contradictory) are cut at that rule and counted per reason; cases where the parsed rule differs from the AST are counted as parser-deviation and left to C04. Non-trivial: judged to the end and (some rule fired and some did not, or an atom with an absent field / field reference / arithmetic, or >= 3 atoms); distinct by hash of (program text, store). Drawn last (parts parser, api): the spelling of the case -- 1 in 4 calls its numeric fields by names that end like the exponent part of a number or in a digit (xe, yE, e, E, x1e, n0, k2e, e5; rules and store renamed alike), 1 in 4 writes arithmetic without blanks when a field is among the operands (A.xe+1).",
         assumptions: vec![
             "REF (harness/src/typed.rs) is the trusted reference; its 'undefined' classes are listed in DESIGN.md §4.1".into(),
             "string literals use an alphabet disjoint from fact names (the engine documents that a string naming a fact is read as that fact)".into(),
